@@ -116,6 +116,18 @@ def rule_MK3(ctx, rep):
             if {x.id for x in ast.walk(v) if isinstance(x, ast.Name)} & opened:
                 if not any(('.pid' in a or a.startswith('P == ') or a.endswith(' == P')) and '==' in a for a in cond.implied(f)):
                     leak = True
+        # the indicator at position i is the indicator of element i: inside a positional comprehension every opened list is read at
+        # the comprehension's own index
+        misidx = None
+        for f, v in cond.expr_cases(sf, src, ins[0], pm, keep=opened):
+            if isinstance(v, (ast.ListComp, ast.GeneratorExp)) and len(v.generators) == 1 and isinstance(v.generators[0].target, ast.Name):
+                iv_ = v.generators[0].target.id
+                for x_ in ast.walk(v.elt):
+                    if isinstance(x_, ast.Subscript) and isinstance(x_.value, ast.Name) and x_.value.id in opened and norm(x_.slice) != iv_:
+                        misidx = x_
+        if misidx is not None:
+            rep.bad('MK3', sf, misidx, f'the zero-indicator of every element is computed from {norm(misidx)} instead of the element at its own position: '
+                    'the exponents of the other elements are opened (or hidden) according to the wrong element')
         if leak:
             rep.bad('MK3', sf, ins[0], 'a party other than the designated receiver computes its input from opened values')
         else:
